@@ -162,9 +162,14 @@ fn ops_view(host: &Host) -> BTreeMap<u32, OpView<'_>> {
 }
 
 fn tail(host: &Host, n: usize) -> String {
-    let start = host.log.len().saturating_sub(n);
+    // centre the excerpt on the trap if there is one
+    let end = match host.log.iter().position(|e| matches!(e, Ev::Trap { .. })) {
+        Some(i) => (i + 4).min(host.log.len()),
+        None => host.log.len(),
+    };
+    let start = end.saturating_sub(n);
     let mut s = String::new();
-    for ev in &host.log[start..] {
+    for ev in host.log[start..end].iter().filter(|e| !matches!(e, Ev::Call { name, .. } if *name == "context.get" || *name == "context.set" || *name == "wasip3_task_set")) {
         s.push_str(&crate::trace::fmt_ev(ev));
         s.push_str(" | ");
     }
@@ -202,23 +207,68 @@ pub fn check(host: &Host, end: &RunEnd, cx: &Ctx) -> Vec<Finding> {
     }
 
     // ---- M2: registration snapshots
-    for ev in &host.log {
+    // A registration is *stale* if the waitable is not (any longer) a member of
+    // the task's set.  The signature names the ABI of the task holding the
+    // stale entry and of the task that joined the waitable last (an operation
+    // that moved between tasks), so that each root cause has one signature.
+    let abi = |t: u32| -> &'static str {
+        match host.tasks.get(t as usize) {
+            Some(t) if t.is_v1 => "v1",
+            Some(t) if t.is_block_on => "block_on",
+            Some(_) => "v2",
+            None => "?",
+        }
+    };
+    let mut seen_m2: BTreeSet<String> = BTreeSet::new();
+    for (i, ev) in host.log.iter().enumerate() {
         if let Ev::Snapshot { task, at, set, keys, members, internal } = ev {
-            if set.is_none() && !keys.is_empty() {
-                out.push(f("C18", "M2:registered-without-set", format!("task {task} at {at}: waitables {:?} registered but the task has no waitable set", keys.iter().map(|k| k.handle).collect::<Vec<_>>())));
-            }
+            let mut emit = |out: &mut Vec<Finding>, sig: String, what: String| {
+                if seen_m2.insert(sig.clone()) {
+                    out.push(f("C18", sig, what));
+                }
+            };
             for k in keys {
-                if !k.exists {
-                    out.push(f("C18", "M2:registered-handle-does-not-exist", format!("task {task} at {at}: registered waitable {} is not a live handle", k.handle)));
-                } else if k.in_set != *set {
-                    out.push(f("C18", "M2:registered-waitable-not-in-task-set", format!("task {task} at {at}: registered waitable {} is in set {:?}, the task's set is {:?}", k.handle, k.in_set, set)));
+                if !k.exists || k.in_set != *set || set.is_none() {
+                    let last_join = host.log[..i].iter().rev().find_map(|e| match e {
+                        Ev::Call { task: jt, name: "waitable.join", a, b, .. } if *a == k.handle as u64 && *b != 0 => Some(*jt),
+                        _ => None,
+                    });
+                    let dest = match last_join {
+                        Some(jt) if jt != *task => format!("now-with-{}-task", abi(jt)),
+                        _ => "not-moved".to_string(),
+                    };
+                    // ABIs of all the tasks that ever registered this waitable
+                    let mut joiners: Vec<u32> = vec![];
+                    for e in &host.log[..i] {
+                        if let Ev::Call { task: jt, name: "waitable.join", a, b, .. } = e {
+                            if *a == k.handle as u64 && *b != 0 && !joiners.contains(jt) {
+                                joiners.push(*jt);
+                            }
+                        }
+                    }
+                    let mut abis: Vec<&str> = joiners.iter().map(|t| abi(*t)).collect();
+                    abis.sort();
+                    // moves that involve a v1-ABI task form one family (a v1
+                    // task cannot be unregistered from outside, and the
+                    // runtime's stored v2 task goes out of date): one signature
+                    // per ABI mix; between v2 tasks the signature is detailed
+                    let sig = if abis.len() > 1 && abis.contains(&"v1") {
+                        format!("M2:stale-registration:operation-moved-between-tasks-involving-v1-abi:registered-by={}", abis.join("+"))
+                    } else {
+                        format!("M2:stale-registration:left-in-{}-task:{}:registered-by={}", abi(*task), dest, abis.join("+"))
+                    };
+                    emit(
+                        &mut out,
+                        sig,
+                        format!("task {task} at {at}: waitable {} is still registered (callback_ptr kept) but it is {} (task's set: {:?})", k.handle, if !k.exists { "no longer a live handle".to_string() } else { format!("in set {:?}", k.in_set) }, set),
+                    );
                 } else if !k.in_progress {
-                    out.push(f("C18", "M2:registered-waitable-without-operation", format!("task {task} at {at}: waitable {} is registered but the host has no operation in progress on it", k.handle)));
+                    emit(&mut out, format!("M2:registered-waitable-without-operation:{}-task", abi(*task)), format!("task {task} at {at}: waitable {} is registered but the host has no operation in progress on it", k.handle));
                 }
             }
             for m in members {
                 if !keys.iter().any(|k| k.handle == *m) && !internal.contains(m) {
-                    out.push(f("C18", "M2:set-member-not-registered", format!("task {task} at {at}: waitable {m} is in the task's set {:?} but not in its waitable map", set)));
+                    emit(&mut out, format!("M2:set-member-not-registered:{}-task", abi(*task)), format!("task {task} at {at}: waitable {m} is in the task's set {:?} but not in its waitable map", set));
                 }
             }
         }
